@@ -24,9 +24,19 @@ use serdect::serde::{
 /// Wrapper type for odd integers.
 ///
 /// These are frequently used in cryptography, e.g. as a modulus.
-#[derive(Clone, Copy, Debug, Default, Eq, Hash, PartialEq, PartialOrd, Ord)]
+#[derive(Clone, Copy, Debug, Eq, Hash, PartialEq, PartialOrd, Ord)]
 #[repr(transparent)]
 pub struct Odd<T>(pub(crate) T);
+
+impl<T> Default for Odd<T>
+where
+    T: crate::Constants,
+{
+    /// The default odd value is one (zero is not odd).
+    fn default() -> Self {
+        Self(T::ONE)
+    }
+}
 
 impl<T> Odd<T> {
     /// Create a new odd integer.
